@@ -27,9 +27,14 @@ RULE = ("names: every sequence of 1..4 (thorough: 1..5) segments over {'..','.',
         "directories hold a 3-level tree built from the same fragments and every enclosing directory "
         "holds equally named sentinel files. compositions: random ChoiceLoader/PrefixLoader/DictLoader "
         "(and FileSystemLoader leaves) trees of depth<=3, all names of <=2 and a fifth of those of 3 segments over 6 fragments (+ ':' / '.' delimiter variants), "
-        "get_source and get_template compared with a 10-line resolution model. dynamic compositions: "
+        "get_source and get_template compared with a 10-line resolution model; leaves are DictLoader, "
+        "FunctionLoader (load function answering with a str or a (source, filename, uptodate) tuple, "
+        "None for a missing name) and FileSystemLoader, and about one template in six of a dict/function "
+        "leaf as well as four files of the search directories are EMPTY (a loader that holds the empty "
+        "source has the name). dynamic compositions: "
         "per shard 40 (thorough 1200) random ChoiceLoader/PrefixLoader trees of depth<=3 over DictLoader "
-        "leaves (the harness keeps the mapping) and FileSystemLoader leaves on private directories; a "
+        "and FunctionLoader leaves (the harness keeps the mapping) and FileSystemLoader leaves on private "
+        "directories, templates set to the empty source in about a quarter of the add/change steps; a "
         "history of 6..12 steps, each adding, deleting or re-texting one name in one leaf (names chosen "
         "so that sibling leaves compete for the same full name); at the start and after EVERY step every "
         "probe name (each leaf's route x {'t','u/t','x.html'}) is looked up on the SAME loader instance "
@@ -47,6 +52,8 @@ ASSUMPTIONS = [
     "containment is lexical (normpath); no symlinks are planted inside the search directories",
     "PackageLoader is exercised for a regular directory package only (no zip, no namespace package)",
     "opens made by the import machinery (importlib frames on the stack) are not attributed to loaders",
+    "a FunctionLoader leaf has a name iff its load function returns something other than None (the "
+    "documented protocol); the empty string is a template source like any other",
     "dynamic compositions: only leaf contents change (a DictLoader sees later changes of the mapping it was "
     "given; a FileSystemLoader sees files appear/disappear); the loader lists / prefix mappings of "
     "ChoiceLoader / PrefixLoader themselves are not mutated; lookups go through cache_size=0 or fresh "
@@ -61,6 +68,9 @@ FLOORS = {
                            "get_source_found": 14000, "rejected_parent_reference": 34000,
                            "get_template_calls": 11000, "compositions": 240,
                            "compose_lookups": 55000, "compose_found": 7000,
+                           "compose_found_empty_template": 1000,
+                           "compose_function_loader_leaves": 200,
+                           "dyn_found_empty_template": 2500, "dyn_steps_on_function_leaf": 500,
                            "compose_notfound": 48000, "dyn_compositions": 160,
                            "dyn_steps": 1400, "dyn_lookups": 17000, "dyn_found": 12000,
                            "dyn_moved_to_other_loader": 240, "dyn_name_appeared": 390,
@@ -171,6 +181,12 @@ class Sandbox:
 
     def write_extra(self):
         self._write(os.path.join(self.root, "secret.txt"), f"{SENT} secret", sentinel=True)
+        # EMPTY templates inside the search directories (names of the composition
+        # pool only; the traversal name space does not contain them)
+        for p in (os.path.join(self.sp1, "x.html"), os.path.join(self.sp1, "a", "x.html"),
+                  os.path.join(self.sp2, "a", "b.txt"), os.path.join(self.sp2, "x.html")):
+            if not os.path.exists(p):
+                self._write(p, "")
 
     def _write(self, p, content, sentinel=False):
         os.makedirs(os.path.dirname(p), exist_ok=True)
@@ -376,16 +392,22 @@ def pool_names():
 
 
 def gen_spec(rng, depth, names, counter, sb=None):
-    kinds = ["dict"] if depth <= 1 else ["dict", "choice", "choice", "prefix", "prefix"]
-    if sb is not None and depth <= 2 and rng.random() < 0.08:
+    kinds = ["dict", "dict", "func"] if depth <= 1 else \
+        ["dict", "func", "choice", "choice", "choice", "prefix", "prefix", "prefix"]
+    if sb is not None and depth <= 2 and rng.random() < 0.1:
         kinds = ["fs"]
     kind = rng.choice(kinds)
     counter[0] += 1
     ident = counter[0]
-    if kind == "dict":
+    if kind in ("dict", "func"):
         k = rng.choice([0, 2, 5, 12, 25, 40])
         chosen = sorted(rng.sample(names[:42], min(k, 30)) + rng.sample(names[42:], k // 4))
-        return ["dict", {n: f"D{ident}:{n}" for n in chosen}]
+        # a template may be EMPTY: the loader still has it
+        mp = {n: ("" if rng.random() < 0.15 else f"{kind[0].upper()}{ident}:{n}") for n in chosen}
+        if kind == "func":
+            # how the load function answers: 'str' | 'tuple' (source, filename, uptodate)
+            return ["func", mp, rng.choice(["str", "str", "tuple"])]
+        return ["dict", mp]
     if kind == "fs":
         return ["fs", rng.choice(["sp1", "sp2"])]
     if kind == "choice":
@@ -397,12 +419,32 @@ def gen_spec(rng, depth, names, counter, sb=None):
     return ["prefix", {p: gen_spec(rng, depth - 1, names, counter, sb) for p in prefixes}, delim]
 
 
+def function_loader(mapping, style="str"):
+    """FunctionLoader over a mapping the harness keeps: 'a string with the
+    template source, a tuple (source, filename, uptodatefunc) or None if the
+    template does not exist'."""
+    from jinja2 import FunctionLoader
+
+    if style == "tuple":
+        def load(name):
+            if name not in mapping:
+                return None
+            src = mapping[name]
+            return src, None, (lambda: mapping.get(name) == src)
+    else:
+        def load(name):
+            return mapping.get(name)
+    return FunctionLoader(load)
+
+
 def build(spec, sb):
     from jinja2 import ChoiceLoader, DictLoader, FileSystemLoader, PrefixLoader
 
     k = spec[0]
     if k == "dict":
         return DictLoader(dict(spec[1]))
+    if k == "func":
+        return function_loader(dict(spec[1]), spec[2] if len(spec) > 2 else "str")
     if k == "fs":
         return FileSystemLoader(getattr(sb, spec[1]))
     if k == "choice":
@@ -415,7 +457,7 @@ def build(spec, sb):
 def resolve(spec, name, sb):
     """The resolution model: source text or None."""
     k = spec[0]
-    if k == "dict":
+    if k in ("dict", "func", "funcdyn"):
         return spec[1].get(name)
     if k == "fsdyn":
         return None if ".." in name.split("/") else spec[1].get(name)
@@ -476,6 +518,7 @@ def check_composition(ctx, sb, spec, names, case):
     ld = build(spec, sb)
     env = Environment(loader=ld, cache_size=0)
     ctx.count("compositions")
+    ctx.count("compose_function_loader_leaves", json.dumps(spec).count('["func"'))
     for name in names:
         want = resolve(spec, name, sb)
         for api in ("get_source", "get_template"):
@@ -486,6 +529,8 @@ def check_composition(ctx, sb, spec, names, case):
                 ctx.count("compose_notfound")
             else:
                 ctx.count("compose_found")
+                if want == "":
+                    ctx.count("compose_found_empty_template")
             if exc is None and got == want:
                 continue
             who = culprit(spec, names, sb, api) or spec[0]
@@ -528,18 +573,20 @@ def part_compose(ctx, sb, quick):
 # gain, lose and change templates: "the first loader that has it" must be
 # decided from what the loaders hold at the time of the lookup.
 DYN_INNER = ["t", "u/t", "x.html"]
+LEAF_KINDS = ("dict", "funcdyn", "fsdyn")
 DYN_PREFIXES = ["a", "b", "p", "q"]
 
 
 def gen_dyn_spec(rng, depth, top=False):
     if depth <= 1:
-        kinds = ["dict", "dict", "dict", "fsdyn"]
+        kinds = ["dict", "dict", "funcdyn", "funcdyn", "fsdyn"]
     elif top:
         kinds = ["choice", "choice", "choice", "prefix", "prefix"]
     else:
-        kinds = ["dict", "dict", "dict", "fsdyn", "choice", "choice", "prefix"]
+        kinds = ["dict", "dict", "funcdyn", "funcdyn", "fsdyn", "choice", "choice", "choice",
+                 "prefix"]
     kind = rng.choice(kinds)
-    if kind in ("dict", "fsdyn"):
+    if kind in LEAF_KINDS:
         return [kind, {}]
     if kind == "choice":
         return ["choice", [gen_dyn_spec(rng, depth - 1) for _ in range(rng.randint(2, 3))]]
@@ -571,14 +618,14 @@ def gen_dynamic(rng, steps):
     """(initial spec, ops, probe names).  ops: ['set', leaf index, local name, text]
     | ['del', leaf index, local name]; every op really changes what the leaf holds."""
     spec = gen_dyn_spec(rng, 3, top=True)
-    leaves = [(s, r) for s, r in dyn_nodes(spec) if s[0] in ("dict", "fsdyn")]
+    leaves = [(s, r) for s, r in dyn_nodes(spec) if s[0] in LEAF_KINDS]
     probes = sorted({r + i for _, r in leaves for i in DYN_INNER})
     cands = [sorted({p[len(r):] for p in probes if p.startswith(r) and len(p) > len(r)})
              for _, r in leaves]
     for li, (leaf, _) in enumerate(leaves):
         for c in cands[li]:
             if rng.random() < 0.3 and not (leaf[0] == "fsdyn" and fs_conflict(c, leaf[1])):
-                leaf[1][c] = f"L{li}:{c}#init"
+                leaf[1][c] = "" if rng.random() < 0.2 else f"L{li}:{c}#init"
     initial = json.loads(json.dumps(spec))
     ops = []
     for step in range(steps):
@@ -593,12 +640,14 @@ def gen_dynamic(rng, steps):
                     del leaf[1][local]
                     ops.append(["del", li, local])
                 else:
-                    leaf[1][local] = f"L{li}:{local}#{step}"
+                    # re-text; an existing non-empty template may become EMPTY
+                    leaf[1][local] = "" if leaf[1][local] and rng.random() < 0.3 \
+                        else f"L{li}:{local}#{step}"
                     ops.append(["set", li, local, leaf[1][local]])
                 break
             if leaf[0] == "fsdyn" and fs_conflict(local, leaf[1]):
                 continue
-            leaf[1][local] = f"L{li}:{local}#{step}"
+            leaf[1][local] = "" if rng.random() < 0.25 else f"L{li}:{local}#{step}"
             ops.append(["set", li, local, leaf[1][local]])
             break
     return initial, ops, probes
@@ -620,6 +669,10 @@ class DynBuild:
             if s[0] == "dict":
                 mp = dict(s[1])
                 ld = DictLoader(mp)
+                self.handles.append(mp)
+            elif s[0] == "funcdyn":
+                mp = dict(s[1])
+                ld = function_loader(mp, ("str", "tuple")[len(self.handles) % 2])
                 self.handles.append(mp)
             elif s[0] == "fsdyn":
                 d = os.path.join(self.dir, f"leaf{nfs[0]}")
@@ -668,7 +721,7 @@ def run_dynamic(ctx, sb, spec0, ops, probes, case):
 
     spec = json.loads(json.dumps(spec0))        # the model's own copy, mutated along
     nodes = dyn_nodes(spec)
-    leaves = [(s, r) for s, r in nodes if s[0] in ("dict", "fsdyn")]
+    leaves = [(s, r) for s, r in nodes if s[0] in LEAF_KINDS]
     b = DynBuild(spec, sb)
     try:
         env = Environment(loader=b.root, cache_size=0)
@@ -717,6 +770,8 @@ def run_dynamic(ctx, sb, spec0, ops, probes, case):
                     ctx.count("dyn_lookups")
                     if want is not None:
                         ctx.count("dyn_found")
+                        if want == "":
+                            ctx.count("dyn_found_empty_template")
                     if exc is None and got == want:
                         continue
                     if exc is not None:
@@ -750,6 +805,8 @@ def run_dynamic(ctx, sb, spec0, ops, probes, case):
             ctx.count("dyn_step_" + after)
             if leaf[0] == "fsdyn":
                 ctx.count("dyn_steps_on_filesystem_leaf")
+            elif leaf[0] == "funcdyn":
+                ctx.count("dyn_steps_on_function_leaf")
             if not check_all(after, route + op[2]):
                 return False
         return True
